@@ -18,8 +18,10 @@ type ttable struct {
 	rows   [][]string
 }
 
-func truthOf(in map[string]any, file string) *ttable {
-	t := gm(gm(in, "truth"), file)
+func truthOf(in map[string]any, file string) *ttable { return truthOfKey(in, "truth", file) }
+
+func truthOfKey(in map[string]any, key, file string) *ttable {
+	t := gm(gm(in, key), file)
 	if t == nil {
 		return nil
 	}
